@@ -1,7 +1,6 @@
 package sinkcluster
 
 import (
-	"bufio"
 	"encoding/json"
 	"github.com/clarkduvall/hyperloglog"
 	"io"
@@ -28,11 +27,12 @@ func (c ClusterCounter) Count(reader io.Reader) (*ClusterCountResult, error) {
 	if err != nil {
 		return nil, err
 	}
-	inputScanner := bufio.NewScanner(reader)
-	for inputScanner.Scan() {
-		inputLine := inputScanner.Bytes()
+	// a chunk can be much longer than the 64 KiB a bufio.Scanner accepts
+	// (a dense sketch is 256 KiB before base64)
+	decoder := json.NewDecoder(reader)
+	for decoder.More() {
 		sinkInfo := SinkEntry{}
-		if err := json.Unmarshal(inputLine, &sinkInfo); err != nil {
+		if err := decoder.Decode(&sinkInfo); err != nil {
 			return nil, err
 		}
 
